@@ -13,8 +13,34 @@ PRE = "verif:preprocess "
 CX_CODE = {"Plain": 10, "NonGroup": 11, "Windowed": 12, "Aggregation": 13}
 
 
-class HookMissing(Exception):
-    pass
+# every arm of should_swap, every complexity, both loop bounds
+REORDER_DIRECTED = [
+    "from t | sort id | take 3 | derive {y = b + 1}",                                  # Plain crosses Take and Sort
+    "from t | sort id | take 3 | derive {y = b + 1, z = a * 2}",                       # two Plain: the second stops at the first
+    "from t | sort id | take 3 | derive {x = sum b}",                                  # Windowed stays behind Take
+    "from t | sort id | take 2..4 | derive {r = row_number this}",
+    "from t | sort id | take 3 | sort {-id} | derive {x = sum b}",                     # ... but crosses the Sort behind it
+    "from t | sort id | take 3 | derive {k = case [a > 1 => 1, true => 0]}",           # NonGroup stays behind Take
+    "from t | sort id | take 3 | derive {x = sum b} | derive {y = b + 1}",             # Plain behind a Compute: stays
+    "from t | filter a > 1 | derive {y = b + 1}",                                      # nothing crosses a Filter
+    "from t | filter a > 1 | derive {x = sum b}",
+    "from t | sort id | filter a > 1 | sort b | derive {y = b + 1}",
+    "from t | join u (==id) | derive {y = t.b + 1}",                                   # ... or a Join
+    "from t | join u (==id) | sort t.id | derive {x = sum t.b}",
+    "from t | aggregate {s = sum b} | derive {y = s + 1}",                             # ... or an Aggregate
+    "from t | group g (aggregate {s = sum b}) | sort g | derive {y = s + 1}",
+    "from t | group g (aggregate {s = sum b}) | sort g | take 2 | derive {c = count s}",
+    "from t | take 3 | derive {y = b + 1}",                                            # position 1: never swapped with position 0
+    "from t | derive {y = b + 1} | take 3",
+    "from t | sort id | derive {y = b + 1}",
+    "from t | sort id | take 5 | take 2 | derive {y = b + 1}",                         # two Takes
+    "from t | sort id | take 5 | sort b | take 2 | derive {y = b + 1, x = sum b}",
+    "from t | select {id, b} | sort id | take 3 | derive {y = b + 1}",                 # a Select in between stops it
+    "from t | sort id | take 3 | append u | derive {y = b + 1}",
+    "from t | group g (sort id | take 2) | derive {y = b + 1}",                        # take inside group = filter on ROW_NUMBER
+    "from t | group {a, b} (take 1) | sort a | derive {y = b + 1}",                    # Distinct
+    "from t | sort id | take 3 | loop (filter id < 5 | select {id = id + 1, a, b, c, g}) | derive {y = b + 1}",
+]
 
 
 def kind_code(t):
